@@ -7,23 +7,23 @@ import subprocess
 from lib import common
 
 MANIFEST = dict(
-    text="PARTIAL, and the full property is FALSE on go-upf (recorded finding sig=evt-sr-cycle). Kernel-checked over a model of the "
-         "two bounded queues between the PFCP event loop and the periodic-report server (capacities and the blocking mode of every "
-         "channel operation regenerated from pfcp.go and perio/server.go on every run): the exact characterisation of the state "
-         "in which the loop (blocked posting a timer event into the full event queue, mid-turn) and the periodic server (blocked "
-         "posting a session report into the full report queue, mid-tick) wait for each other; its permanence (no action of anybody "
-         "is enabled, ever); absence of the wedge whenever a turn fits into the event queue or a tick fits into the report queue; "
-         "C18_wedge_refuted: the wedge IS reachable; every queue is made with the capacity constant the model uses "
-         "(C18_capacities, from the generated make(chan) table) and no send the loop can reach inside package pfcp can block "
-         "(C18_loop_sends_cannot_block, from the generated loop_sends table). Tie / search: full-stack probes (real PfcpServer + real Gtp5g driver over "
-         "the simulated gtp5g kernel + real periodic server) on both sides of the characterisation: below the thresholds the UPF "
-         "must answer a heartbeat within the deadline (a hang there is a new violation) - including probes that take the two "
-         "thresholds apart (sessions x URRs > 512 timer events with < 128 reported sessions) and packet-queue overrun bursts -, above them the known wedge is "
-         "reproduced with the goroutine dump showing the two blocked call sites and printed as KNOWN-FINDING.",
-    note="Partial: fairness of the Go scheduler and liveness beyond 'the blocked send is enabled' are not modelled; data-plane call "
-         "latency is simulated by holding the tick's netlink query. The stopTicker hand-shake cycle was found real by C17's "
-         "stress and repaired (8577a06). ",
-    technique="Coq: deadlock characterisation + reachability witness over a queue model with generated capacities/modes; full-stack hang probes",
+    text="Kernel-checked over a model of the two queues between the PFCP event loop and the periodic-report server (blocking "
+         "mode of every operation regenerated from pfcp.go and perio/server.go on every run; the event queue is the unbounded "
+         "FIFO the code has since fix 'periodic server: unbounded event queue', the report queue is bounded): the loop is never "
+         "blocked posting a timer event (C18_loop_post_never_blocks), so a turn touching k URRs completes in exactly k steps of "
+         "the loop whatever the periodic server waits for (C18_turn_completes); no reachable state is a deadlock - either "
+         "everything has been served or one of the two servers can move (C18_no_deadlock); every server step lowers a work "
+         "measure, so without new input the system reaches quiescence (C18_server_steps_lower_work); every queue is made with "
+         "the capacity constant the model uses (C18_capacities) and no send the loop can reach inside package pfcp can block "
+         "(C18_loop_sends_cannot_block). The OLD code (event channel of 512) is kept as a second model in which the wedge is "
+         "reachable and permanent (C18_old_code_wedge_reachable) - the regression witness. Tie / search: full-stack probes (real "
+         "PfcpServer + real Gtp5g driver over the simulated gtp5g kernel + real periodic server): sessions x URRs on both sides "
+         "of 512 posted events and 128 reported sessions, the thresholds apart and together (700 / 1000 sessions, the history "
+         "that wedged the old code), tick held in its query during a bulk removal by re-association, packet-queue overrun "
+         "bursts; after each the UPF must answer a heartbeat within the deadline.",
+    note="Partial only in that fairness of the Go scheduler is assumed and liveness is stated as 'some server step is enabled and "
+         "lowers the work measure'; data-plane call latency is simulated by holding the tick's netlink query. ",
+    technique="Coq: deadlock-freedom and bounded-progress theorems over a queue model with generated blocking modes; full-stack hang probes",
     design="4/C18")
 
 SIG = "evt-sr-cycle"
@@ -74,8 +74,10 @@ def run(ctx, replay=None):
                            else [(65, 8), (66, 8), (90, 6), (100, 6), (120, 5), (127, 5), (127, 9)])]
     # one PDR's packet queue overrun (its surplus is dropped): the loop must not block on a queue only it drains
     below += [{"sessions": 1, "burst": b, "deadline_ms": 4000} for b in ([rnd.randint(513, 900)] if ctx.tier == "quick" else [511, 512, 513, 600, 2000])]
-    above = [{"sessions": n, "hold_tick": True, "reassoc": True, "deadline_ms": 2500}
-             for n in ([rnd.randint(530, 800)] if ctx.tier == "quick" else [513, 600, 1000])]
+    # both thresholds crossed at once: the history that wedged the code before the event queue became unbounded
+    below += [{"sessions": n, "hold_tick": True, "reassoc": True, "deadline_ms": 6000}
+              for n in ([rnd.randint(530, 800)] if ctx.tier == "quick" else [513, 600, 1000])]
+    above = []
     if replay:
         r = json.load(open(replay))
         below, above = [r["case"]], []
@@ -86,7 +88,7 @@ def run(ctx, replay=None):
         o = probe(ctx, info["harness"], c, k)
         results.append({"case": c, "result": o, "expected": "answered"})
         if o.get("error") or not o.get("answered") or o.get("established") != c["sessions"]:
-            ctx.violation({"property": "C18", "what": "UPF unresponsive (or probe failed) BELOW the queue capacities: %s" % o,
+            ctx.violation({"property": "C18", "what": "UPF unresponsive (or probe failed): %s" % o,
                            "case": c, "result": o, "replay_cmd": "python3 check.py C18 --replay <this file>"})
             break
     known = common.known_findings("C18")
